@@ -17,6 +17,7 @@ void vp_c17_str(QString *out, unsigned n);                                    //
 void vp_c17_sym_datetime(QDateTime *out);                                    // arbitrary VALID date-time (abstract value)
 unsigned vp_c17_unknown();                                                   // number of QXmppElement(QDomElement) constructions = elements that fell through to "unknown extension"
 void vp_c17_unknown_reset();
+void vp_c17_phase();                                                         // forget cbmc dead/deallocated bookkeeping (see c17_models.c)
 bool vp_c17_kf_d12();                                                        // known finding d12_jmi_callinvite listed (-DKF_d12_jmi_callinvite)
 }
 
@@ -53,6 +54,7 @@ static void c17_warm()
 static void c17_base(QXmppMessage &m)
 {
     c17_warm();
+    vp_c17_phase();
     m.setId(c17Str(1));
     m.setTo(c17Str(1));
 }
@@ -63,16 +65,19 @@ static void c17_serialize(const QXmppMessage &m, C17Trees &t)
         m.toXml(w.writer(), QXmpp::ScePublic);
         t.pub = w.root();
     }
+    vp_c17_phase();
     {
         VpWriter w;
         m.toXml(w.writer(), QXmpp::SceSensitive);
         t.sens = w.root();
     }
+    vp_c17_phase();
     {
         VpWriter w;
         m.toXml(w.writer(), QXmpp::SceAll);
         t.all = w.root();
     }
+    vp_c17_phase();
 }
 // where do the `nel` elements of the single field that is set land?
 static void c17_place(const C17Trees &t, Part part, unsigned nel, QStringView tag, QStringView ns)
@@ -95,8 +100,11 @@ static void c17_place(const C17Trees &t, Part part, unsigned nel, QStringView ta
 static void c17_roundtrip(const C17Trees &t, QXmppMessage &r)
 {
     vp_c17_unknown_reset();
+    vp_c17_phase();
     r.parse(t.pub, QXmpp::ScePublic);
+    vp_c17_phase();
     r.parse(t.sens, QXmpp::SceSensitive);
+    vp_c17_phase();
     vp_assert(vp_c17_unknown() == 0, "C17 (iii) every element of each part is recognised when that part is parsed in its own mode");
 }
 
@@ -117,6 +125,7 @@ static void c17_roundtrip(const C17Trees &t, QXmppMessage &r)
         if (part != PUBONLY) {                                                           \
             QXmppMessage r2;                                                             \
             r2.parse(t.all, QXmpp::SceAll);                                              \
+            vp_c17_phase();                                                              \
             chk_##name(m, r2, true);                                                     \
         }                                                                                \
     }
